@@ -114,7 +114,7 @@ func Run(run *vh.Run) {
 	run.Floor("history blocks where the min-price clamp decides", run.Get("hist_blocks_min_price_clamps"), int64(nWorlds*nBlocks)/10)
 	run.Floor("under-priced transactions refused", run.Get("hist_tx_rejected_below-base-fee")+run.Get("hist_tx_rejected_below-min-gas-price"), int64(nWorlds*nBlocks))
 	run.Floor("transactions refused for a price between the base fee and floor(min gas price)", run.Get("hist_tx_rejected_below-min-gas-price"), int64(nBursts))
-	run.Floor("blocks run while the base fee was below floor(min gas price)", run.Get("hist_blocks_base_fee_below_global_min"), int64(nBursts)/2)
+	run.Floor("blocks run while the base fee was below floor(min gas price)", run.Get("hist_blocks_base_fee_below_global_min"), int64(nBursts)/4)
 	run.Floor("transactions admitted exactly at the bound", run.Get("hist_tx_admitted_equal"), int64(nWorlds*nBlocks)/2)
 	run.Floor("transactions admitted above the bound", run.Get("hist_tx_admitted_above"), int64(nWorlds*nBlocks))
 }
